@@ -7,6 +7,7 @@ import (
 
 	"verif/harness/ref"
 	"verif/harness/render"
+	"verif/harness/spec"
 	"verif/harness/yx"
 )
 
@@ -16,12 +17,14 @@ type c03 struct{}
 func init() { register(c03{}) }
 
 func (c03) ID() string { return "C03" }
-func (c03) NumCases(tier string) int {
+func (c03) regularCases(tier string) int {
 	if tier == "thorough" {
-		return len(families) + 80000
+		return len(families) + 250000
 	}
 	return len(families) + 4000
 }
+func (p c03) NumCases(tier string) int { return p.regularCases(tier) + tinyCases(tier) }
+func (c03) Extra(tier string) map[string]interface{} { return tinyExtra(tier) }
 func (c03) Rule() string {
 	return "case = one grammar (curated LR(0)/SLR/LALR/NQLALR/LR(1) separating families, then random grammars with and without precedence lines) built by the real ParseAndBuild; hook VerifReduceLookaheads gives yaccgo's lookahead set per (state, rule); compared with the union of canonical LR(1) lookaheads over same-core states (reference computed from yaccgo's own rule list, states matched by item set); conflict warnings on stdout compared with the reference's unresolved two-candidate cells; non-trivial = at least one reduction whose LALR set is a proper subset of the SLR FOLLOW set, or a conflict cell; distinct by grammar text"
 }
@@ -32,12 +35,21 @@ func (c03) DiedIsViolation() bool      { return false }
 func (c03) MinNontrivial(t string) int { return 100 }
 
 func (c03) Run(seed int64, tier string, idx int) Outcome {
+	p := c03{}
+	reg := p.regularCases(tier)
+	if idx >= reg {
+		return tinyBatch("C03", idx-reg, true, p.runOn)
+	}
 	r := caseRng(seed, "C03", idx)
 	cfg := stdCfg
 	if idx%3 == 0 {
 		cfg = bigCfg
 	}
 	g := pickGrammar(r, idx, true, cfg)
+	return p.runOn(g, idx)
+}
+
+func (c03) runOn(g *spec.Grammar, idx int) Outcome {
 	g.NoAction = true
 	text := render.Render(g, plainParts, render.Options{})
 	o := Outcome{Status: "held", Replay: map[string]interface{}{"grammar": text}}
